@@ -682,7 +682,12 @@ func (x *Exec) invoke(st *State, site ssa.Instruction, c *ssa.CallCommon) Val {
 		x.reportIfNot(st, x.o.False())
 		return nil
 	}
-	if strings.HasSuffix(key, "TestingT.Helper") || strings.HasSuffix(key, "TestingT.FailNow") {
+	if strings.HasSuffix(key, "TestingT.FailNow") {
+		// marks the test as failed too: counted as a report
+		x.reportIfNot(st, x.o.False())
+		return nil
+	}
+	if strings.HasSuffix(key, "TestingT.Helper") {
 		return nil
 	}
 	// dispatch over the known dynamic types of the interface value (module types)
@@ -780,6 +785,7 @@ type deferred struct {
 	call  *ssa.CallCommon
 	args  []Val
 	fn    Val
+	block *ssa.BasicBlock // where the defer statement stands
 }
 
 func (x *Exec) deferCall(st *State, t *ssa.Defer) {
@@ -787,17 +793,23 @@ func (x *Exec) deferCall(st *State, t *ssa.Defer) {
 	for _, a := range t.Call.Args {
 		args = append(args, x.operand(st, a))
 	}
-	d := deferred{guard: st.Guard, call: &t.Call, args: args}
+	d := deferred{guard: st.Guard, call: &t.Call, args: args, block: t.Block()}
 	if !t.Call.IsInvoke() {
 		d.fn = x.operand(st, t.Call.Value)
 	}
 	x.defers = append(x.defers, d)
 }
 
-func (x *Exec) runDefers(st *State) {
+func (x *Exec) runDefers(st *State, at *ssa.BasicBlock) {
 	// deferred calls run in reverse order; only calls whose effect is modelled are accepted
 	for i := len(x.defers) - 1; i >= 0; i-- {
 		d := x.defers[i]
+		if at != nil && d.block != nil && d.block.Parent() == at.Parent() && !blockReaches(d.block, at) {
+			continue // this defer statement is not on any path to here (the executor visits blocks, not paths)
+		}
+		if x.o.And(st.Guard, d.guard).IsFalse() {
+			continue
+		}
 		sub := st
 		c := d.call
 		switch f := c.Value.(type) {
@@ -1404,4 +1416,26 @@ func (w *World) checkPure(fn *ssa.Function, ignores string) string {
 		}
 	}
 	return ""
+}
+
+// blockReaches: there is a path in the control-flow graph from a to b (a == b counts).
+func blockReaches(a, b *ssa.BasicBlock) bool {
+	seen := map[*ssa.BasicBlock]bool{}
+	var walk func(c *ssa.BasicBlock) bool
+	walk = func(c *ssa.BasicBlock) bool {
+		if c == b {
+			return true
+		}
+		if seen[c] {
+			return false
+		}
+		seen[c] = true
+		for _, s := range c.Succs {
+			if walk(s) {
+				return true
+			}
+		}
+		return false
+	}
+	return walk(a)
 }
